@@ -1,8 +1,8 @@
 package verifh
 
 import (
-	"bytes"
 	"bufio"
+	"bytes"
 	"encoding/json"
 	"fmt"
 	"io"
@@ -158,7 +158,7 @@ type c20Call struct {
 	Skew    int          `json:"skew"`
 	Dist    int          `json:"dist"`
 	Mut     int          `json:"mut"`
-	SibDig  int          `json:"sib_digits,omitempty"` // != 0: submit the genuine code of the counter under THIS code length instead
+	SibDig  int          `json:"sib_digits,omitempty"`  // != 0: submit the genuine code of the counter under THIS code length instead
 	FracP   float64      `json:"frac_period,omitempty"` // fraction added to the period argument alone (Frac is added to all numeric arguments)
 	Type    string       `json:"type"`
 	Issuer  string       `json:"issuer"`
@@ -169,8 +169,8 @@ type c20Call struct {
 	// trimming and case mapping treat differently (see oddSecret); the native library's answer for that very text is the oracle
 	OddSecret int    `json:"odd_secret,omitempty"`
 	BadPos    int    `json:"bad_pos"` // -1: well-formed
-	BadVal string `json:"bad_val"`
-	Arity  int    `json:"arity"`
+	BadVal    string `json:"bad_val"`
+	Arity     int    `json:"arity"`
 }
 
 type c20Case struct {
@@ -499,7 +499,7 @@ func drawC20Call(t *rapid.T) c20Call {
 				if c.Fn == "generateOTPURL" && c.BadPos == 0 {
 					vals = append(vals, "badtype", "badtype", "badtype")
 				}
-				if (c.Fn != "generateOTPURL" && c.BadPos == 0) {
+				if c.Fn != "generateOTPURL" && c.BadPos == 0 {
 					vals = append(vals, "badsecret", "badsecret", "badsecret") // an undecodable secret is an error, not a code
 				}
 				c.BadVal = rapid.SampledFrom(vals).Draw(t, "badStr")
@@ -653,7 +653,6 @@ func TestC20_ExportTable(t *testing.T) {
 	}
 	c20Names.rec().Exhaustive()
 }
-
 
 // oddSecret alters a secret text where JavaScript and Go disagree about trimming or case mapping: String.prototype.trim
 // strips U+FEFF and not U+0085, strings.TrimSpace the reverse; toUpperCase maps one character to several (sharp s,
